@@ -339,6 +339,8 @@ def gen(seed, idx, tier, ctx):
                 it['stale'] = True
             if dst == 'stdout' and rng.random() < 0.3:
                 it['wplan']['tty'] = True      # stdout is a terminal
+            if src == 'stdin' and rng.random() < 0.3:
+                it['rplan']['tty'] = True      # stdin is a terminal
             if src == 'file' and dst == 'file' and rng.random() < 0.25:
                 # format a file in place: -o names the input file itself,
                 # possibly under another spelling of its path
@@ -586,6 +588,8 @@ def run_cli_item(item, text, ref, stat, viols, ii, want_bytes=False):
     stat('form_cli_%s_%s' % (item['in'], item['out']))
     if wplan.get('tty') and item['out'] == 'stdout':
         stat('cli_stdout_is_a_terminal')
+    if (item.get('rplan') or {}).get('tty') and item['in'] == 'stdin':
+        stat('cli_stdin_is_a_terminal')
     stat('channel_events', chan.events)
     sig = 'cli|%s>%s|%s|%s|cuts%s|%s' % (
         item['in'], item['out'], enc, ','.join(sorted(item.get('opts')
@@ -720,6 +724,14 @@ def run(spec, refs):
 
 def on_crash(spec, st):
     return {'status': 'harness', 'msg': 'child died: ' + st}
+
+
+def on_timeout(spec, timeout):
+    return {'status': 'violation', 'viol': [{
+        'cls': 'hang', 'msg': 'the run did not finish within %.0f s of real '
+        'time (it normally takes milliseconds to seconds): a front end never returned' % timeout}],
+        'stats': {'hangs': 1}, 'sigs': [], 'sigs_nt': [], 'nontrivial': True}
+
 
 
 # ---------------------------------------------------------------------------
@@ -962,6 +974,7 @@ PROBES = ['probe_multibyte_char_split_across_reads', 'probe_short_read',
           'form_cli_file_stdout', 'form_cli_stdin_stdout',
           'form_cli_file_file', 'form_cli_stdin_file', 'cli_invalid_items',
           'cli_inplace_items', 'cli_stdout_is_a_terminal',
+          'cli_stdin_is_a_terminal',
           'faulted_item_failed_visibly']
 
 COMPONENTS = {
